@@ -274,6 +274,10 @@ func (db *TempPool) OperationHashes(
 ) ([][2]util.Hash, error) {
 	e := util.StringError("find new operations")
 
+	if limit < 1 {
+		return nil, nil
+	}
+
 	pst, err := db.st()
 	if err != nil {
 		return nil, e.Wrap(err)
